@@ -86,6 +86,13 @@ class BoundMethod:
         self.node = node
 
 
+class Index:
+    """a symbolic index set (a buffer of feature indices)"""
+
+    def __init__(self, name):
+        self.name = name
+
+
 class SymFn:
     """an uninterpreted function (sub-network, abstract hook): calls become ("call", name, args...)
     terms; with n_out == 2 the result is a pair of its two components"""
@@ -167,6 +174,10 @@ class PEval:
         self.self_obj = self_obj
         self.steps = 0
         self.shapes = shapes or {}  # term -> concrete sizes of the non-batch axes
+        self.simplify = None  # optional rewriting of freshly built terms (inverse cancellation ...)
+
+    def mk(self, term):
+        return Sym(self.simplify(term) if self.simplify is not None else term)
 
     # -- running a method -------------------------------------------------------------
     def call_method(self, fnode, args, kwargs=None):
@@ -307,6 +318,12 @@ class PEval:
             raise Undecided("raise reached")
         raise Undecided("statement %s" % type(st).__name__)
 
+    def _try(self, e, env):
+        try:
+            return self.ev(e, env)
+        except Undecided:
+            return None
+
     def _owner(self, env, name):
         e = env
         while e is not None:
@@ -324,6 +341,16 @@ class PEval:
                 raise Undecided("unpacking %d values into %d targets" % (len(items), len(t.elts)))
             for e, x in zip(t.elts, items):
                 self.assign(e, x, env)
+        elif isinstance(t, ast.Subscript) and isinstance(t.value, ast.Name) and isinstance(self._try(t.value, env), Sym) and self._feature_index(t.slice, env) is not None:
+            base = self.ev(t.value, env)
+            idx = self._feature_index(t.slice, env)
+            if not (isinstance(base.term, tuple) and base.term and base.term[0] == "scatter"):
+                raise Undecided("indexed store into a tensor that is not freshly allocated")
+            if not isinstance(v, Sym):
+                raise Undecided("indexed store of a non-tensor")
+            pairs = tuple(p for p in base.term[1] if p[0] != idx.name) + ((idx.name, v.term),)
+            owner = self._owner(env, t.value.id)
+            owner.set(t.value.id, self.mk(("scatter", tuple(sorted(pairs)))))
         elif isinstance(t, ast.Subscript):
             base = self.ev(t.value, env)
             idx = self.ev(t.slice, env)
@@ -554,8 +581,24 @@ class PEval:
             if isinstance(sl, ast.Slice) and sl.lower is None and sl.step is None and sl.upper is not None:
                 k = self.ev(sl.upper, env)
                 return Sym(("slice0", base.term, k.term if isinstance(k, Sym) else k))
+            idx = self._feature_index(sl, env)
+            if idx is not None:
+                return self.mk(("gather", base.term, idx.name))
             raise Undecided("indexing %s" % norm_text(node)[:50])
         raise Undecided("subscript of %r" % (base,))
+
+    def _feature_index(self, sl, env):
+        """IDX for x[:, IDX] / x[:, IDX, ...] with IDX a symbolic index set"""
+        if isinstance(sl, ast.Tuple) and len(sl.elts) in (2, 3) and isinstance(sl.elts[0], ast.Slice) and sl.elts[0].lower is None and sl.elts[0].upper is None:
+            if len(sl.elts) == 3 and not (isinstance(sl.elts[2], ast.Constant) and sl.elts[2].value is Ellipsis):
+                return None
+            try:
+                v = self.ev(sl.elts[1], env)
+            except Undecided:
+                return None
+            if isinstance(v, Index):
+                return v
+        return None
 
     # -- calls -------------------------------------------------------------------------------
     def call(self, e, env):
@@ -627,7 +670,11 @@ class PEval:
             if isinstance(a, (tuple, list)) and all(isinstance(x, int) for x in a):
                 return ("size", tuple(a))
             raise Undecided("torch.Size of a symbolic value")
-        if fn_text in ("torch.zeros_like", "torch.empty_like") and e.args:
+        if fn_text == "torch.empty_like" and e.args:
+            a = self.ev(e.args[0], env)
+            if isinstance(a, Sym):
+                return Sym(("scatter", ()))  # to be filled by indexed stores
+        if fn_text in ("torch.zeros_like",) and e.args:
             a = self.ev(e.args[0], env)
             if isinstance(a, Sym):
                 return Sym(("zeros_like", a.term))
@@ -728,8 +775,8 @@ class PEval:
             targs = tuple(a.term if isinstance(a, Sym) else a for a in args) + tuple((k, v.term if isinstance(v, Sym) else v) for k, v in sorted(kw.items()))
             t = ("call", f.name) + targs
             if f.n_out == 2:
-                return (Sym(("item", t, 0)), Sym(("item", t, 1)))
-            return Sym(t)
+                return (self.mk(("item", t, 0)), self.mk(("item", t, 1)))
+            return self.mk(t)
         if isinstance(f, tuple) and f and f[0] == "method" and isinstance(f[1], tuple) and f[1] and f[1][0] == "size" and f[2] == "numel":
             r = 1
             for x in f[1][1]:
@@ -742,7 +789,7 @@ class PEval:
                 raise Undecided("stage applied to a non-tensor")
             ctx = kw.get("context", args[1] if len(args) > 1 else None)
             ctxt = ctx.term if isinstance(ctx, Sym) else ctx
-            return (Sym(("out", st.name, direction, args[0].term, ctxt)), Sym(("ld", st.name, direction, args[0].term, ctxt)))
+            return (self.mk(("out", st.name, direction, args[0].term, ctxt)), self.mk(("ld", st.name, direction, args[0].term, ctxt)))
         if isinstance(f, tuple) and f and f[0] == "listmethod":
             _, lst, name = f
             if name == "append":
